@@ -174,6 +174,14 @@ def copy_preserves(ctx, rule='A8c'):
                 sites += [(bv, bvf) for bf, bc, bv, bvf in _shc._through_params(ctx.prog, classes, u, c, v, vf)
                           if bf is fn]
     oks = []
+    # a wrapper that copies the list under a boolean parameter: decided by interpreting it for get_for_adjusted's call
+    for u in unit_functions(ctx.prog, fn)[1:]:
+        if any(isinstance(c, ast.Call) and norm(c.func) == 'self.__class__' for c in walk_fn(u)):
+            fl = _shc._flagged_wrapper_sites(ctx.prog, classes, u, '_choice_con_map')
+            for bf, bc, fresh, shown, vt in fl or []:
+                if bf is fn:
+                    oks.append(vt == ('call', ('attr', ('attr', ('name', 'self'), '_choice_constraints'), 'copy'), ()))
+                    sites = [(v_, vf_) for v_, vf_ in sites if vf_ is not u]
     for v, vf in sites:
         if True:
             exprs = [v]
